@@ -23,6 +23,7 @@ import (
 	"reduction.dev/reduction/dkv/recovery"
 	"reduction.dev/reduction/dkv/storage"
 	"reduction.dev/reduction/jobs"
+	"reduction.dev/reduction/partitioning"
 	"reduction.dev/reduction/proto"
 	"reduction.dev/reduction/proto/jobpb"
 	"reduction.dev/reduction/proto/snapshotpb"
@@ -122,9 +123,17 @@ func genCluster(r *mrand.Rand, prop, tier string) simcore.Case {
 			}
 		}
 	case "C14":
-		cs.Ops = append(cs.Ops, simcore.Op{K: "savepoint", A: []int64{faultTime(r, 150)}})
-		if r.IntN(3) == 0 {
+		if r.IntN(2) == 0 {
+			// a recovery before the savepoint: the operators' checkpoints then reference
+			// files of an earlier deployment, in other directories than their own
+			cs.Ops = append(cs.Ops, simcore.Op{K: "kill-all", A: []int64{61000 + int64(r.IntN(50000)), 0, 1 + int64(r.IntN(5)), int64(r.IntN(2))}})
+			cs.Ops = append(cs.Ops, simcore.Op{K: "savepoint", A: []int64{125000 + int64(r.IntN(90000))}})
+			cs.Cfg["records"] = cs.Cfg["records"] + 12
+		} else {
 			cs.Ops = append(cs.Ops, simcore.Op{K: "savepoint", A: []int64{faultTime(r, 150)}})
+		}
+		if r.IntN(3) == 0 {
+			cs.Ops = append(cs.Ops, simcore.Op{K: "savepoint", A: []int64{faultTime(r, 200)}})
 		}
 		cs.Cfg["workers2"] = pick(1, 2, 3)
 	}
@@ -182,7 +191,7 @@ func bodyCluster(c *sim.Ctx) {
 	}
 	w.src = src
 	w.h = newCluModel(c, src)
-	w.h.faults = len(c.Case.Ops) > 0 && prop != "C14"
+	w.h.faults = len(c.Case.Ops) > 0 && (prop != "C14" || hasOp(c.Case.Ops, "kill-all"))
 
 	disk.OnPublish = func(node, p string, data []byte) {
 		if !strings.HasSuffix(p, ".snapshot") {
@@ -712,6 +721,9 @@ func (w *cluWorld) finalChecks(finalID uint64) {
 	}
 	c.Probe("final-state-verified")
 	w.checkRanges(jc)
+	if prop == "C05" {
+		w.checkRouterConfigurations()
+	}
 	w.checkStreams()
 	w.checkAssignments()
 	w.checkDeploys()
@@ -853,17 +865,10 @@ func (w *cluWorld) checkAssignments() {
 			}
 		}
 		if id, ok := w.src.roundCkpt[r]; ok {
-			jc := w.allPublished[id]
-			if jc == nil {
-				c.Violate(prop+"/restored-unpublished-checkpoint", "assignment round %d restored source positions of checkpoint %d which was never published", r, id)
+			want := w.src.roundWant[r]
+			if want == nil {
+				c.Violate(prop+"/restored-unpublished-checkpoint", "assignment round %d restored source positions of checkpoint %d which had not been published", r, id)
 				return
-			}
-			want := map[string]int64{}
-			for _, b := range jc.SourceCheckpoints[0].SplitStates {
-				var st simSplitState
-				if jsonUnmarshal(b, &st) == nil {
-					want[st.SplitID] = st.Cursor
-				}
 			}
 			for _, sr := range sortedKeysAny(w.src.roundAssign[r]) {
 				m := w.src.roundAssign[r][sr]
@@ -960,4 +965,83 @@ func (w *cluWorld) lastRecordDelivery(srID string) (time.Duration, bool) {
 		}
 	}
 	return last, n >= want && want > 0
+}
+
+// checkRouterConfigurations (C05 only): the cluster harness can instantiate 1-3
+// operators; the property quantifies over every operator count, including
+// counts that do not divide or that exceed the key-group count. For a seeded
+// sample of such configurations the router every source runner uses
+// (partitioning.KeySpace.RangeIndex / KeyGroup / KeyGroupRanges - real code) is
+// evaluated directly against the independent hash and the range properties.
+// This part is direct evaluation of a pure function, not simulation, and is
+// reported as such in the evidence (probe "router-configurations-evaluated").
+func (w *cluWorld) checkRouterConfigurations() {
+	c, prop := w.c, w.prop
+	r := mrand.New(mrand.NewPCG(uint64(c.Cfg("dataseed", 1)), 77))
+	groupsSwarm := []int{1, 2, 3, 5, 7, 8, 64, 127, 128, 129, 255, 256, 257, 1000, 4096, 65535}
+	var keys [][]byte
+	for _, recs := range w.src.splits {
+		for _, rec := range recs {
+			keys = append(keys, []byte(rec.Key))
+		}
+	}
+	for i := 0; i < 200; i++ {
+		k := make([]byte, r.IntN(41))
+		for j := range k {
+			k[j] = byte(r.IntN(256))
+		}
+		keys = append(keys, k)
+	}
+	for cfg := 0; cfg < 12; cfg++ {
+		g := groupsSwarm[r.IntN(len(groupsSwarm))]
+		n := []int{1, 2, 3, 4, 5, 7, 8, 255, 256, 257, 300, 1000, g, g + 1, 1 + r.IntN(g)}[r.IntN(15)]
+		var ks *partitioning.KeySpace
+		func() {
+			defer func() {
+				if p := recover(); p != nil {
+					c.Violate(prop+"/keyspace-panic", "NewKeySpace(%d groups, %d operators): %v", g, n, p)
+				}
+			}()
+			ks = partitioning.NewKeySpace(g, n)
+		}()
+		if ks == nil {
+			return
+		}
+		ranges := ks.KeyGroupRanges()
+		next, minSz, maxSz := 0, 1<<30, 0
+		for _, rg := range ranges {
+			if rg.Start != next || rg.End < rg.Start {
+				c.Violate(prop+"/ranges-not-contiguous", "%d groups over %d operators: ranges %v", g, n, ranges)
+				return
+			}
+			next = rg.End
+			minSz, maxSz = min(minSz, rg.End-rg.Start), max(maxSz, rg.End-rg.Start)
+		}
+		if next != g || len(ranges) != n || maxSz-minSz > 1 {
+			c.Violate(prop+"/ranges-invalid", "%d groups over %d operators: ranges must cover [0,%d) with sizes differing by at most one, got %d ranges ending at %d (sizes %d..%d)", g, n, g, len(ranges), next, minSz, maxSz)
+			return
+		}
+		for _, k := range keys {
+			want := refKeyGroup(k, g)
+			if got := int(ks.KeyGroup(k)); got != want {
+				c.Violate(prop+"/key-group-function", "key %q over %d groups: engine says group %d, MurmurHash3-32(key, seed 0) mod %d is %d", k, g, got, g, want)
+				return
+			}
+			idx := ks.RangeIndex(k)
+			if idx < 0 || idx >= len(ranges) || want < ranges[idx].Start || want >= ranges[idx].End {
+				c.Violate(prop+"/routed-to-non-owner", "%d groups over %d operators: key %q (group %d) is routed to operator index %d whose range does not contain the group", g, n, k, want, idx)
+				return
+			}
+		}
+		c.Probe("router-configurations-evaluated")
+	}
+}
+
+func hasOp(ops []simcore.Op, k string) bool {
+	for _, o := range ops {
+		if o.K == k {
+			return true
+		}
+	}
+	return false
 }
